@@ -40,7 +40,7 @@ def mismatches(o, r, trail):
     bad = []
     if (r["nbrace"] > 0) != o["has"]:
         bad.append("node")
-    if not trail:
+    if True:
         if o["big"]:
             n = o["count"]
             if n > LIMIT:
@@ -50,7 +50,7 @@ def mismatches(o, r, trail):
                 bad.append("count")
         elif "exp_err" in r or r["exp"] != [txt(e) for e in o["exp"]]:
             bad.append("exp")
-        if o["obs"]:
+        if o["obs"] and not trail:
             impl = "ERR " + r["fields_err"] if "fields_err" in r else fmt(r["fields"])
             if impl != fmt([txt(e) for e in o["fin"]]):
                 bad.append("fields")
@@ -60,14 +60,15 @@ def mismatches(o, r, trail):
 def evaluate(ck, vecs, h, use_bash=True):
     """vecs: spec vectors (dicts with w as char list). Applies all sub-checks."""
     vecs = [v for v in vecs if v.get("inmodel")]
-    res = vlib.run_harness(h, "braces", [{"w": v["w"]} for v in vecs], shards=16)
+    from concurrent.futures import ThreadPoolExecutor
     # bash only where the spec says the final text is predictable
     bidx = [i for i, v in enumerate(vecs) if v["obs"] and not v["trail"]] if use_bash else []
-    bres = {}
-    if bidx:
-        outs = vlib.run_shell_evals(["f " + txt(vecs[i]["w"]) for i in bidx], prelude=PRELUDE,
-                                    per_process=20000, jobs=4)
-        bres = dict(zip(bidx, outs))
+    with ThreadPoolExecutor(max_workers=2) as ex:
+        fh = ex.submit(vlib.run_harness, h, "braces", [{"w": v["w"]} for v in vecs], shards=8)
+        fb = ex.submit(vlib.run_shell_evals, ["f " + txt(vecs[i]["w"]) for i in bidx], prelude=PRELUDE,
+                       per_process=4000, jobs=4)
+        res, outs = fh.result(), fb.result()
+    bres = dict(zip(bidx, outs))
     st = ck.notes.setdefault("c16", {"parse_skipped": 0, "bash_compared": 0, "word_level": 0, "limit_cases": 0})
     for i, (v, r) in enumerate(zip(vecs, res)):
         w = txt(v["w"])
@@ -89,16 +90,10 @@ def evaluate(ck, vecs, h, use_bash=True):
             st["word_level"] += 1
         if v["big"]:
             st["limit_cases"] += 1
-        # ---- returned bool of SplitBraces
-        if r["has"] != v["has"]:
-            if r["has"] == v["hasch"]:
-                ck.violation("Dev_SplitTrueOnAnyBraceChar", dict(rec, impl=r))
-            else:
-                ck.violation("SplitBraces word=%r returned %s, spec HasBrace=%s" % (w, r["has"], v["has"]), dict(rec, impl=r))
         # ---- printed form of the split word
+        if r["printed_struct"] != txt(v["printed"]):
+            ck.violation("SplitBraces word=%r changes the text to %r" % (w, r["printed_struct"]), dict(rec, impl=r))
         if not trail:
-            if r["printed_struct"] != txt(v["printed"]):
-                ck.violation("SplitBraces word=%r changes the text to %r" % (w, r["printed_struct"]), dict(rec, impl=r))
             if "printed_panic" in r:
                 pp = r["printed_panic"]
                 site = "BraceExp.Pos" if "BraceExp).Pos" in pp else "BraceExp.End" if "BraceExp).End" in pp else pp[-120:]
@@ -121,15 +116,25 @@ def evaluate(ck, vecs, h, use_bash=True):
                 ck.drift(full)          # the spec is wrong about bash; the code is right
                 continue
             bad.append("bash")
+        def check_bool(o):
+            # the returned bool of SplitBraces against the HasBrace of the way of splitting the code follows
+            if r["has"] != o["has"]:
+                if r["has"] == v["hasch"]:
+                    ck.violation("Dev_SplitTrueOnAnyBraceChar", dict(rec, impl=r))
+                else:
+                    ck.violation("SplitBraces word=%r returned %s, HasBrace=%s" % (w, r["has"], o["has"]), dict(rec, impl=r))
         if not bad:
+            check_bool(v)
             if v["has"]:
                 ck.sample({"word": w, "expansion": spec}, cap=5)
             continue
         # known systematic deviations: reported under their name only when the code computes
         # exactly what the named operator of the spec says
-        hit = [d["name"] for d in v["devs"] if not mismatches(d, r, trail)]
+        hit = [d for d in v["devs"] if not mismatches(d, r, trail)]
         if hit:
-            ck.violation(hit[0], full); continue
+            check_bool(hit[0])
+            ck.violation(hit[0]["name"], full); continue
+        check_bool(v)
         if bad == ["fields"] and "fields_err" not in r:
             keep = [txt(e) for e in v["finkeep"]]
             fin = [txt(e) for e in v["fin"]]
@@ -139,21 +144,100 @@ def evaluate(ck, vecs, h, use_bash=True):
         ck.violation("word=%r differs in %s" % (w, ",".join(bad)), full)
 
 
+BASE = {"zero": 0, "max": 2**63 - 1, "min": -2**63}
+
+
+def render(tokens):
+    """A template word/result: 1-char strings and symbolic numbers [base, off] -> text."""
+    return "".join(t if isinstance(t, str) else str(BASE[t["base"]] + t["off"]) for t in tokens)
+
+
+def evaluate_sym(ck, syms, h):
+    """Symbolic templates (ends next to the int64 limits): BracesSeq, Fields and bash against the
+    spec's symbolic result rendered in decimal."""
+    syms = [sv for sv in syms if sv["scope"]]
+    words = [render(sv["word"]) for sv in syms]
+    res = vlib.run_harness(h, "braces", [{"s": w} for w in words])
+    bres = vlib.run_shell_evals(["f " + w for w in words], prelude=PRELUDE)
+    st = ck.notes.setdefault("c16", {})
+    st["symbolic_templates"] = st.get("symbolic_templates", 0) + len(syms)
+    for sv, w, r, b in zip(syms, words, res, bres):
+        ck.cov["evaluations"] += 1
+        ck.cov["traces_validated_against_impl"] += 1
+        ck.cov["distinct_nontrivial"] += 0 if sv["literal"] else 1
+        exp = [render(e) for e in sv["exp"]]
+        spec = fmt(exp)
+        bash = b["out"] if b["rc"] == 0 else "ERR rc=%d" % b["rc"]
+        rec = {"vector": {"sym": sv}, "word": w, "spec": spec, "bash": bash, "impl": r}
+        if "panic" in r:
+            ck.violation("panic word=%r %s" % (w, r["panic"][:80]), rec); continue
+        impl_e = "ERR " + r["exp_err"] if "exp_err" in r else fmt(r["exp"])
+        impl_f = "ERR " + r["fields_err"] if "fields_err" in r else fmt(r["fields"])
+        if (impl_e, impl_f) == (spec, spec) and bash == spec:
+            ck.sample({"word": w, "expansion": spec[:120]}, cap=8)
+            continue
+        if bash != spec and impl_f == bash and impl_e == bash:
+            ck.drift(rec); continue
+        if sv["wraprisk"] and "exp_err" in r and "would exceed" in r["exp_err"] and bash == spec:
+            # the loop variable wrapped around int64 and the sequence ran into the element limit
+            ck.violation("Dev_SeqWrapsAtInt64Limit", rec); continue
+        ck.violation("template word=%s" % w, rec)
+
+
 def run(ck):
+    from concurrent.futures import ThreadPoolExecutor
+    import time
     h = vlib.build_harness("bracesarith")
-    cfg = "ShBraces.%s.cfg" % ck.tier
-    t = vlib.run_tlc("ShBraces", cfg, workers=16, timeout=1500)
-    ck.add_tlc(t)
-    if not t.ok:
-        raise vlib.Inconclusive("ShBraces: a law of the contract fails in the model:\n" + (t.violation or t.raw_tail))
-    vecs = flatten(t.vecs.get("VEC", []))
-    ck.notes["exhaustive_words"] = len(vecs)
+    T = ck.notes.setdefault("phase_s", {})
+    # TLC runs 20 behaviours per unit of num
+    nsim, depth = (10, 10) if ck.tier == "quick" else (150, 14)
+    jobs = {"bfs": dict(cfg="ShBraces.%s.cfg" % ck.tier, workers=16, timeout=1500, tags=("VEC", "SYM")),
+            "sim": dict(cfg="ShBraces.sim.cfg", simulate=nsim, depth=depth, seed=ck.seed, timeout=1500)}
+    if ck.tier == "thorough":
+        # second exhaustive run: one symbol longer over the reduced alphabet { } , . 1 a \ $
+        jobs["bfs2"] = dict(cfg="ShBraces.thorough2.cfg", workers=16, timeout=1500, tags=("VEC", "SYM"))
+    t0 = time.time()
+    with ThreadPoolExecutor(max_workers=3) as ex:
+        futs = {k: ex.submit(lambda a: vlib.run_tlc("ShBraces", a.pop("cfg"), **a), dict(a)) for k, a in jobs.items()}
+        runs = {k: f.result() for k, f in futs.items()}
+    T["tlc_all_parallel"] = round(time.time() - t0, 1)
+    for k in jobs:
+        ck.add_tlc(runs[k])
+        T["tlc_" + k] = round(runs[k].wall, 1)
+        if not runs[k].ok:
+            raise vlib.Inconclusive("ShBraces (%s): a law of the contract fails in the model:\n" % k +
+                                    (runs[k].violation or runs[k].raw_tail))
+    vecs = flatten(runs["bfs"].vecs.get("VEC", []))
+    syms = flatten(runs["bfs"].vecs.get("SYM", []))
+    ck.notes["exhaustive_words"] = len([v for v in vecs if not v.get("menu")])
+    ck.notes["menu_words"] = len([v for v in vecs if v.get("menu")])
+    seen = set(json.dumps(v["w"]) for v in vecs)
+    for k, note in (("bfs2", "exhaustive_words_reduced_alphabet_len6"), ("sim", "simulated_words")):
+        if k not in runs:
+            continue
+        n = 0
+        for v in flatten(runs[k].vecs.get("VEC", [])):
+            key = json.dumps(v["w"])
+            if key not in seen and not v.get("menu"):
+                seen.add(key); vecs.append(v); n += 1
+        ck.notes[note] = n
     ck.cov["exhaustive"] = True
-    ck.cov["rule"] = ("every word up to MaxLen over { } , . 0 1 2 a b - \\ $ (TLC BFS, one vector per word); "
-                      "non-trivial = the spec says the word contains a brace expansion")
+    ck.cov["rule"] = ("every word up to MaxLen over { } , . 0 1 2 a b - \\ $ (TLC BFS, one vector per word) + menu words + "
+                      "symbolic int64-limit templates + distinct simulated longer words; evaluations = words the parser "
+                      "accepts, run through SplitBraces/BracesSeq/Fields; non-trivial = the spec says the word contains a "
+                      "brace expansion")
+    ck.assumptions += ["bash 5.2.15 as reference (set -f; a=A b=B; $1=P $2=Q)",
+                       "shell-level comparison only where the spec can predict the final text (obs): no $0 $$ $- ${..} forms, no lone trailing backslash",
+                       "sequences whose ends are more than 2^31 apart are outside the model (bash refuses them for memory reasons)"]
+    t0 = time.time()
     evaluate(ck, vecs, h)
+    evaluate_sym(ck, syms, h)
+    T["replay_and_bash"] = round(time.time() - t0, 1)
 
 
 def replay(ck, rec):
     h = vlib.build_harness("bracesarith")
-    evaluate(ck, [rec["vector"]["spec"]], h)
+    if "sym" in rec["vector"]:
+        evaluate_sym(ck, [rec["vector"]["sym"]], h)
+    else:
+        evaluate(ck, [rec["vector"]["spec"]], h)
